@@ -181,6 +181,8 @@ struct Ctx {
     skipped_unmodelled: u64,
     programs_run: u64,
     well_formed: u64,
+    gen_run: u64,
+    gen_well_formed: u64,
     runs: u64,
     no_filter: bool,
     verbose: bool,
@@ -257,6 +259,13 @@ impl Ctx {
         self.programs_run += 1;
         if m.result.starts_with("ok ") {
             self.well_formed += 1;
+        }
+        if origin == "generated" {
+            self.gen_run += 1;
+            self.rep.bump(&format!("generated_model_outcome={}", m.result.split(' ').next().unwrap_or("")));
+            if m.result.starts_with("ok ") {
+                self.gen_well_formed += 1;
+            }
         }
         let req = request(p);
         for ctx in contexts {
@@ -682,6 +691,8 @@ fn main() {
         skipped_unmodelled: 0,
         programs_run: 0,
         well_formed: 0,
+        gen_run: 0,
+        gen_well_formed: 0,
         runs: 0,
         no_filter: args.has_flag("--no-filter"),
         verbose: args.has_flag("--verbose"),
@@ -771,7 +782,7 @@ fn main() {
         .position(|x| x == "--programs")
         .and_then(|i| args.extra.get(i + 1))
         .and_then(|s| s.parse().ok())
-        .unwrap_or(if thorough { 110_000 } else { 3000 });
+        .unwrap_or(if thorough { 300_000 } else { 3000 });
     let mut produced = 0usize;
     let mut attempts = 0usize;
     let mut filtered_known: std::collections::BTreeMap<&'static str, u64> = Default::default();
@@ -929,9 +940,10 @@ fn main() {
     cx.rep.extra.insert("impl_runs".into(), json!(cx.runs));
     cx.rep.extra.insert(
         "well_formed_share".into(),
-        json!({"model_outcome_ok": cx.well_formed, "programs": cx.programs_run,
-               "share": if cx.programs_run > 0 { cx.well_formed as f64 / cx.programs_run as f64 } else { 0.0 },
-               "note": "programs whose reference outcome is a value (not a type/index error); the rest exercise the error classes"}),
+        json!({"generated_programs": cx.gen_run, "generated_with_value_outcome": cx.gen_well_formed,
+               "share_generated": if cx.gen_run > 0 { cx.gen_well_formed as f64 / cx.gen_run as f64 } else { 0.0 },
+               "all_programs_incl_operator_trees": cx.programs_run, "all_with_value_outcome": cx.well_formed,
+               "note": "a program is counted well-formed when its reference outcome is a value (no type/index error anywhere); the others still compile and are compared on error class and on the trace up to the error; the exhaustive operator trees pair every operator with every operand kind, so most of them are type errors by design"}),
     );
     cx.rep.extra.insert(
         "conditions".into(),
